@@ -103,7 +103,14 @@ func (a *Activation) callContract(ins *ssa.Call, g *ssa.Function, spec *FuncSpec
 		if label == "" {
 			label = fmt.Sprint(i + 1)
 		}
-		x.oblige(a.oname("pre@call:"+site), label, *rc, env.evalBool(r.E), ins.Pos(), nil, "precondition of "+fullKey(g)+": "+r.Text)
+		cs := env.conjuncts(r.E, 0)
+		for k, cj := range cs {
+			l := label
+			if len(cs) > 1 {
+				l = fmt.Sprintf("%s.%d", label, k+1)
+			}
+			x.oblige(a.oname("pre@call:"+site), l, *rc, cj.Term, ins.Pos(), nil, "precondition of "+fullKey(g)+": "+cj.Text)
+		}
 	}
 	if spec.PanicsIff != nil {
 		x.oblige(a.oname("pre@call:"+site), "no-panic", *rc, not(env.evalBool(spec.PanicsIff)), ins.Pos(), nil, "callee "+fullKey(g)+" does not panic")
@@ -157,6 +164,21 @@ func (a *Activation) callContract(ins *ssa.Call, g *ssa.Function, spec *FuncSpec
 			}
 		}
 	}
+	ghostRes := map[string]Val{}
+	for name, ty := range spec.GhostRes {
+		srt := map[string]string{"int": "Int", "bool": "Bool", "mapint": arrSort("Int", "Int")}[ty]
+		if srt == "" {
+			efail("ghostresult %s: unknown type %s", name, ty)
+		}
+		v := Val{K: KScalar, Srt: srt, S: c.Fresh("gr_"+name, srt)}
+		if ty == "int" {
+			v = intVal(v.S)
+		} else if ty == "bool" {
+			v = boolVal(v.S)
+		}
+		post.vars[name] = v
+		ghostRes["res_"+name] = v
+	}
 	for _, en := range spec.Ensures {
 		c.Comment("ensures of " + fullKey(g) + ": " + en.Text)
 		c.Assume(implies(*rc, post.evalBool(en.E)))
@@ -165,6 +187,15 @@ func (a *Activation) callContract(ins *ssa.Call, g *ssa.Function, spec *FuncSpec
 		a.ghostAt("after "+site, st, *rc, nil, func(n string) (Val, bool) {
 			if n == "callresult" && len(rs) > 0 {
 				return rs[0], true
+			}
+			if v, ok := ghostRes[n]; ok {
+				return v, true
+			}
+			if strings.HasPrefix(n, "arg") {
+				var k int
+				if _, err := fmt.Sscanf(n, "arg%d", &k); err == nil && k >= 0 && k < len(args) {
+					return args[k], true
+				}
 			}
 			return Val{}, false
 		})
@@ -428,6 +459,24 @@ func (a *Activation) appendSlice(ins ssa.Value, s, t Val, st *State, rc *string)
 
 // ---------- range over maps ----------
 
+// rangeOrd: ordinal (1-based, in block order) of a map-range statement within its function.
+func (a *Activation) rangeOrd(r *ssa.Range) int {
+	n := 0
+	for _, b := range a.fn.Blocks {
+		for _, ins := range b.Instrs {
+			if rg, ok := ins.(*ssa.Range); ok {
+				if _, isMap := rg.X.Type().Underlying().(*types.Map); isMap {
+					n++
+				}
+				if rg == r {
+					return n
+				}
+			}
+		}
+	}
+	return 0
+}
+
 type rangeState struct {
 	m       Val
 	mt      *types.Map
@@ -444,9 +493,10 @@ func (a *Activation) rangeInit(ins *ssa.Range, st *State) Val {
 		unsup("range over %s", typeStr(m.T))
 	}
 	ks := c.sortOf(mt.Key())
-	// ghost iteration state lives in st.gvars under the name of the Range instruction
-	st.gvars["range:"+ins.Name()+":visited"] = Val{K: KScalar, Srt: arrSort(ks, "Bool"), S: fmt.Sprintf("((as const %s) false)", arrSort(ks, "Bool"))}
-	st.gvars["range:"+ins.Name()+":count"] = intVal("0")
+	// ghost iteration state: visitedN (set of keys already yielded) and nvisitedN, N = ordinal of the range statement
+	n := a.rangeOrd(ins)
+	st.gvars[fmt.Sprintf("visited%d", n)] = Val{K: KScalar, T: mt.Key(), Srt: arrSort(ks, "Bool"), S: fmt.Sprintf("((as const %s) false)", arrSort(ks, "Bool")), N: -1}
+	st.gvars[fmt.Sprintf("nvisited%d", n)] = intVal("0")
 	return Val{K: KScalar, T: nil, Srt: "Int", S: m.S, Fs: []Val{m}}
 }
 
@@ -461,8 +511,9 @@ func (a *Activation) rangeNext(ins *ssa.Next, st *State, rc *string) Val {
 	m := it.Fs[0]
 	mt := m.T.Underlying().(*types.Map)
 	mk, ks, _ := x.mapSortsOf(mt)
-	vis := st.gvars["range:"+rng.Name()+":visited"]
-	cnt := st.gvars["range:"+rng.Name()+":count"]
+	ord := a.rangeOrd(rng)
+	vis := st.gvars[fmt.Sprintf("visited%d", ord)]
+	cnt := st.gvars[fmt.Sprintf("nvisited%d", ord)]
 	if vis.S == "" {
 		unsup("range state lost (range across loops without ghost state)")
 	}
@@ -477,8 +528,8 @@ func (a *Activation) rangeNext(ins *ssa.Next, st *State, rc *string) Val {
 	c.Assume(implies(*rc, and(app("<=", cnt.S, x.mapLen(st, m.S)), implies(not(ok), eq(cnt.S, x.mapLen(st, m.S))), implies(ok, app("<", cnt.S, x.mapLen(st, m.S))))))
 	nvis := vis
 	nvis.S = c.Define("visited", vis.Srt, ite(ok, store(vis.S, k, "true"), vis.S))
-	st.gvars["range:"+rng.Name()+":visited"] = nvis
-	st.gvars["range:"+rng.Name()+":count"] = intVal(c.Define("count", "Int", ite(ok, app("+", cnt.S, "1"), cnt.S)))
+	st.gvars[fmt.Sprintf("visited%d", ord)] = nvis
+	st.gvars[fmt.Sprintf("nvisited%d", ord)] = intVal(c.Define("count", "Int", ite(ok, app("+", cnt.S, "1"), cnt.S)))
 	kv := scalar(mt.Key(), k)
 	vv, _ := x.mapLookup(st, mt, m.S, kv)
 	vv = x.nameVal(ins.Name()+"_v", vv)
